@@ -664,6 +664,108 @@ class G:
         lines += ["op 0 %s 1" % op, "op 3 %s 2" % op, "stall", "end"]
         return lines
 
+    def affine_div_case(self, cid, kind):
+        """affine transformers with a non-unit divisor that does not divide the constant: translation / reflection
+        (expr = +-d*var + b), +-d*w + b, and general expressions; every carrier (the inexact ones must round outward)"""
+        r = self.r
+        n = 3
+        cs = []
+        for i in range(n):
+            lo = r.randint(-3, 2); hi = lo + r.randint(0, 4)
+            cs += [self.grid_con(n, [(i, 1)], -lo), self.grid_con(n, [(i, -1)], hi)]
+        for _ in range(r.randint(0, 2)):
+            c = self.con(kind, n)
+            if not c.startswith(">"): cs.append(c)
+        lines = ["case %s" % cid, "new 0 %s %d cons %d %s" % (kind, n, len(cs), " ".join(cs))]
+        for k in range(1, 7): lines.append("copy %d 0" % k)
+        def ex(v):
+            d = r.choice([2, 3, -2, -3, 4, 5, -5])
+            b = r.choice([x for x in range(-9, 10) if x % abs(d) != 0])
+            co = [0] * n
+            u = r.random()
+            if u < 0.5: co[v] = r.choice([d, -d])                      # translation / reflection of var itself
+            elif u < 0.75: co[r.choice([k for k in range(n) if k != v])] = r.choice([d, -d])
+            else:
+                while sum(1 for x in co if x) < 2: co = [r.choice([-2, -1, 0, 1, 2, d]) for _ in range(n)]
+            return d, "%d %d %s" % (n, b, " ".join(map(str, co)))
+        v = r.randrange(n); d, e = ex(v); lines.append("op 1 affine_image %d %d %s" % (v, d, e))
+        v = r.randrange(n); d, e = ex(v); lines.append("op 2 affine_image %d %d %s" % (v, d, e))
+        v = r.randrange(n); d, e = ex(v); lines.append("op 3 affine_preimage %d %d %s" % (v, d, e))
+        v = r.randrange(n); d, e = ex(v); lines.append("op 4 generalized_affine_image %d %s %d %s" % (v, r.choice(["<=", ">=", "=="]), d, e))
+        v = r.randrange(n); d, e = ex(v); _, e2 = ex(v); lines.append("op 5 bounded_affine_image %d %d %s %s" % (v, d, e, e2))
+        v = r.randrange(n); d, e = ex(v); lines.append("op 6 generalized_affine_preimage %d %s %d %s" % (v, r.choice(["<=", ">=", "=="]), d, e))
+        lines += ["stall", "end"]
+        return lines
+
+    def fold_case(self, cid, kind):
+        """fold / expand / map / remove with both index orders of source and destination, surviving variables in
+        between, relational (sum / difference) constraints not implied by the interval bounds"""
+        r = self.r
+        f = fam(kind)
+        n = r.choice([3, 3, 4])
+        cs = []
+        for i in range(n):
+            if r.random() < 0.6:
+                lo = r.randint(-2, 2); hi = lo + r.randint(0, 5)
+                if r.random() < 0.8: cs.append(self.grid_con(n, [(i, 1)], -lo))
+                if r.random() < 0.8: cs.append(self.grid_con(n, [(i, -1)], hi))
+        if f != "box":
+            for _ in range(r.randint(2, 4)):
+                i, j = r.sample(range(n), 2)
+                si, sj = (1, -1) if f == "bds" else (r.choice([1, -1]), r.choice([1, -1]))
+                cs.append(self.grid_con(n, [(i, si), (j, sj)], r.randint(-3, 3), r.choice(["=", ">=", ">="])))
+        if not cs: cs = [self.grid_con(n, [(0, 1)], 0)]
+        objs = {0: (kind, n)}
+        lines = ["case %s" % cid, "new 0 %s %d cons %d %s" % (kind, n, len(cs), " ".join(cs))]
+        for k in range(1, 5): lines.append("copy %d 0" % k); objs[k] = (kind, n)
+        if r.random() < 0.4: lines.append("op 1 %s" % r.choice(["closure", "reduction"]))
+        # fold: destination above / below the folded variables, a surviving variable in between when possible
+        d = r.choice([0, n - 1, r.randrange(n)])
+        cand = [i for i in range(n) if i != d]
+        vs = sorted(r.sample(cand, r.randint(1, min(2, len(cand) - 1)) if len(cand) > 1 else 1))
+        lines.append("op 1 fold_space_dimensions %d %s %d" % (len(vs), " ".join(map(str, vs)), d))
+        lines.append("op 2 expand_space_dimension %d 1" % r.randrange(n))
+        lines.append(self.mutator(3, objs, ["map_space_dimensions"]))
+        lines.append(self.mutator(4, objs, ["remove_space_dimensions"]))
+        lines += ["stall", "end"]
+        return lines
+
+    def relarg_case(self, cid, kind):
+        """relation_with a generator / constraint / congruence of SMALLER space dimension than the shape, and the same
+        argument padded to the full dimension"""
+        r = self.r
+        f = fam(kind)
+        n = r.choice([2, 3, 3])
+        cs = []
+        for i in range(n):
+            if r.random() < 0.6: cs.append(self.grid_con(n, [(i, r.choice([1, -1]))], r.randint(0, 5)))
+        if f != "box":
+            for _ in range(r.randint(1, 2)):
+                i, j = r.sample(range(n), 2)
+                si, sj = (1, -1) if f == "bds" else (r.choice([1, -1]), r.choice([1, -1]))
+                cs.append(self.grid_con(n, [(i, si), (j, sj)], r.randint(-2, 3)))
+        if not cs: cs = [self.grid_con(n, [(n - 1, 1)], 0)]
+        lines = ["case %s" % cid, "new 0 %s %d cons %d %s" % (kind, n, len(cs), " ".join(cs))]
+        if r.random() < 0.4: lines.append("op 0 %s" % r.choice(["closure", "reduction"]))
+        for _ in range(6):
+            k = r.randint(1, n - 1) if r.random() < 0.8 else n
+            co = [r.choice([-2, -1, 0, 1, 1, 5]) for _ in range(k)]
+            kindg = r.choice(["p", "p", "r", "l"])
+            if kindg != "p" and not any(co): co[-1] = r.choice([1, -1])
+            g = "%s %d %s" % (kindg, r.choice([1, 1, 2]) if kindg == "p" else 1, " ".join(map(str, co)))
+            lines.append("qry 0 relation_with_gen_n %d %s" % (k, g))
+            lines.append("qry 0 relation_with_gen %s %s" % (g, " ".join(["0"] * (n - k))) if k < n else "qry 0 relation_with_gen %s" % g)
+        for _ in range(3):
+            k = r.randint(1, n - 1)
+            i = r.randrange(k); co = [0] * k; co[i] = r.choice([1, -1, 2])
+            if f != "box" and k > 1 and r.random() < 0.5:
+                j = r.choice([x for x in range(k) if x != i]); co[j] = -co[i] if f == "bds" else r.choice([co[i], -co[i]])
+            c = "%s %d %s" % (r.choice(["=", ">=", ">="]), r.randint(-3, 3), " ".join(map(str, co)))
+            lines.append("qry 0 relation_with_con_n %d %s" % (k, c))
+            lines.append("qry 0 relation_with_cg_n %d 0 %s" % (k, c.split(" ", 1)[1]))
+        lines += ["stall", "end"]
+        return lines
+
     def twin_case(self, cid, kind):
         """equal sets with different matrices, and sets one notch apart"""
         r = self.r
@@ -701,7 +803,7 @@ def make_targeted(seed, count, kinds, start=0, which=None):
     transformers, lazy state after dimension changes, difference with straddled equalities)"""
     g = G(seed, 3)
     out = []
-    names = which or ["open_box", "eq_refine", "affine_general", "lazy_dim", "diff_eq", "swap", "ubie", "affine_general"]
+    names = which or ["open_box", "eq_refine", "affine_general", "lazy_dim", "diff_eq", "swap", "ubie", "affine_general", "affine_div", "fold", "relarg"]
     i = 0; made = 0
     while made < count:
         kind = kinds[i % len(kinds)]; nm = names[(i // len(kinds)) % len(names)]; i += 1
